@@ -109,6 +109,7 @@ func runC01(c *Case, out func(string)) {
 		}
 	}
 	flushedOnce := false
+	compacted := false
 	for i := 0; i < len(c.Lines); i++ {
 		l := c.Lines[i]
 		switch l[0] {
@@ -286,8 +287,26 @@ func runC01(c *Case, out func(string)) {
 				fail(fmt.Sprintf("C08: last sequence went from %d to %d across a clean reopen", before, after))
 			}
 			prevLast = after
+		case "compact":
+			// TriggerCompaction runs one compaction cycle on the SSTable directory. The running
+			// storage manager keeps reading its own (stale) reader list, a reopen sees the
+			// compacted files: either way no key may read differently (oracle). After the first
+			// compaction the layer dump is restricted to the memtables (the file set is C12's subject).
+			if err := e.TriggerCompaction(); err != nil {
+				out("NOTE compact error " + strings.ReplaceAll(err.Error(), " ", "_"))
+			}
+			if len(l) > 2 {
+				if err := e.CompactRange(tok(l[1]), tok(l[2])); err != nil {
+					out("NOTE compactrange error " + strings.ReplaceAll(err.Error(), " ", "_"))
+				}
+			}
+			compacted = true
 		case "layers":
-			dumpLayers(e, out)
+			if compacted {
+				dumpMemLayers(e, out)
+			} else {
+				dumpLayers(e, out)
+			}
 		default:
 			out("IMPL-ERROR bad line " + strings.Join(l, " "))
 		}
@@ -360,7 +379,13 @@ func genVal(r *rand.Rand) string {
 	case 2:
 		return fmt.Sprintf("@%d:%d", 50+r.Intn(300), r.Intn(1<<20))
 	default:
-		return fmt.Sprintf("@%d:%d", []int{32700, 32768, 40000, 70000}[r.Intn(4)], r.Intn(1<<20))
+		// sizes aimed at the log record format (see bigEntry in c09.go): a value whose
+		// fragments end exactly at / one byte around a record boundary, or just any big one
+		_, vl := bigEntry(r, false)
+		if vl > 140000 {
+			vl = 70000
+		}
+		return lenTok(r, vl)
 	}
 }
 
@@ -379,6 +404,14 @@ func genProgram(w *bufio.Writer, r *rand.Rand, id string, nops int, reopenW int)
 	fmt.Fprintf(w, "case %s memsize=%d maxmem=1000\n", id, memsize)
 	nkeys := 2 + r.Intn(5)
 	for i := 0; i < nops; i++ {
+		if r.Intn(25) == 0 {
+			if r.Intn(2) == 0 {
+				fmt.Fprintf(w, "compact\n")
+			} else {
+				fmt.Fprintf(w, "compact %s %s\n", mkTok(genKey(r, nkeys)), mkTok(genKey(r, nkeys)))
+			}
+			continue
+		}
 		switch pick(r, 10, 4, 8, 2, 3, 1, 3, reopenW, 1) {
 		case 0:
 			fmt.Fprintf(w, "put %s %s\n", mkTok(genKey(r, nkeys)), genVal(r))
